@@ -39,3 +39,9 @@ pub proof fn lemma_somes(v: Seq<Option<Uuid>>)
 pub fn flatten_options(v: &Vec<Option<Uuid>>) -> (r: std::collections::HashSet<Uuid>)
     ensures r@ == somes(v@)
 { v.iter().filter_map(|u| *u).collect() }
+// A4: Entry::or_insert_with, modelled on vstd's specification of Entry::or_insert
+pub assume_specification<'a, K, V, A: std::alloc::Allocator, F: FnOnce() -> V>[ std::collections::hash_map::Entry::<'a, K, V, A>::or_insert_with ](entry: std::collections::hash_map::Entry<'a, K, V, A>, default: F) -> (value: &'a mut V)
+    requires vstd::std_specs::hash::EntrySpecFns::value(entry) is None ==> default.requires(()),
+    ensures
+        match vstd::std_specs::hash::EntrySpecFns::value(entry) { Some(v) => *value == v, None => default.ensures((), *value) },
+        vstd::std_specs::hash::EntrySpecFns::final_value(entry) == Some(*final(value));
